@@ -7,7 +7,7 @@
     the oracle of the correspondence check.
 
     FULL STATEMENT (not proved in general; checked on every generated case by the
-    correspondence check, and REFUTED for two request shapes, see the [_refuted] theorems):
+    correspondence check; the two request shapes for which it used to be refuted are repaired):
       forall bounds window agg createEmpty timeColumn forceAggregate chunks,
         run_model ... chunks = Some arrs ->
         flux_rows ... arrs = Some (spec_rows ... (concat chunks)). *)
@@ -70,29 +70,38 @@ Theorem C41_selector_rows :
 Proof. exact ws_rows_spec. Qed.
 Print Assumptions C41_selector_rows.
 
-(** REFUTED (confirmed on the real code, findings.d/C41.json): a selector with
-    ForceAggregate and without createEmpty: the table never ends. *)
-Theorem C41_forceaggregate_selector_never_ends_refuted :
-  exists bs be every off tc k arrs,
-    is_sel k = true /\ arrs <> [] /\ flux_rows bs be every off false tc k true arrs = None.
+(** A selector (min/max/first/last) that table.fill() forces to be treated as an aggregate,
+    without createEmpty (formerly REFUTED: the table never ended; repaired in
+    createNextBufferTimes, findings.d/C41.json): for every list of arrays of selected points
+    below bounds.Stop the table ENDS and has one row per point, with the point's own window
+    clipped to the bounds and the point's value. *)
+Theorem C41_forced_selector_rows :
+  forall bs be every off tc k (arrs : list (list (Z * val))),
+    0 < every -> is_sel k = true -> arrs <> [] ->
+    Forall (Forall (fun p => fst p < be)) arrs ->
+    flux_rows bs be every off false tc k true arrs
+    = Some (map (fun p => mk_row bs be every tc (ns_start every off (fst p)) None (Some (snd p)))
+                (concat arrs)).
 Proof.
-  exists 0, 40, 10, 0, TNone, First, [[(3, VI 7); (25, VI 9)]].
-  split; [reflexivity|]. split; [discriminate|]. vm_compute. reflexivity.
+  intros bs be every off tc k arrs He Hk Hne H. unfold flux_rows. rewrite Hk. cbn [negb orb].
+  destruct arrs as [|a arrs']; [congruence|]. apply wt_nce_sel; assumption.
 Qed.
-Print Assumptions C41_forceaggregate_selector_never_ends_refuted.
+Print Assumptions C41_forced_selector_rows.
 
-(** REFUTED (confirmed on the real code): a selector with createEmpty and more than 1000
-    windows loses the empty windows after the 1000-row block in which the data ends. *)
-Theorem C41_createempty_selector_rows_refuted :
-  exists bs be every off arrs rows,
-    nwin bs be every off = 1250
-    /\ flux_rows bs be every off true TNone Min false arrs = Some rows
-    /\ length rows = 1000%nat.
-Proof.
-  exists 0, 2500, 2, 0, [[(3, VI 7); (5, VI 9)]].
-  eexists. split; [vm_compute; reflexivity|]. split; [vm_compute; reflexivity|]. vm_compute. reflexivity.
-Qed.
-Print Assumptions C41_createempty_selector_rows_refuted.
+(** the former witness of the never-ending table *)
+Example C41_forceaggregate_selector_ends :
+  flux_rows 0 40 10 0 false TNone First true [[(3, VI 7); (25, VI 9)]]
+  = Some [R 0 10 None (Some (VI 7)); R 20 30 None (Some (VI 9))].
+Proof. vm_compute. reflexivity. Qed.
+
+(** the former witness of the dropped empty windows (selector, createEmpty, 1250 windows, data
+    in the first block only): now one row per window (repaired in
+    *EmptyWindowSelectorTable.advance). *)
+Example C41_createempty_selector_all_windows :
+  nwin 0 2500 2 0 = 1250
+  /\ option_map (@length row) (flux_rows 0 2500 2 0 true TNone Min false [[(3, VI 7); (5, VI 9)]])
+     = Some 1250%nat.
+Proof. split; vm_compute; reflexivity. Qed.
 
 (** Non-vacuity: bounds [5,25), every 10: the storage count cursor and the flux table give
     the three clipped windows with counts 0, 1, 0 (the shape of the in-repo unit test), and
